@@ -296,4 +296,22 @@ PROPS = {
         "tags": {1: "FieldType vs the model", 2: "FieldTypeWithEnums vs the model", 3: "NativeType vs the model", 9: "the model's decoder rejects the column"},
         "assumptions": ["column and table names do not collide after camel-casing", "enum values of strings are identifier-like (letters, digits, '-', '_')"],
     },
+    "C16": {
+        "level_text": ("Theorems (Props/C16.v, axiom-free): on reconnect every monitor is re-established, in an arbitrary order (any permutation), and answers with the complete "
+                       "contents of its tables; with the repaired purge rule the cache is afterwards exactly the monitored part of the database whatever it held before - no row "
+                       "deleted meanwhile survives, none is missing - for any number of monitors; the pinned rule (every restarted monitor purges everything) is refuted for two "
+                       "monitors. Tied to the code by a fault-injecting proxy between a real client (reconnect on) and a real server: the connection is cut during connect, "
+                       "during a monitor's set-up, between and inside notifications, with the client's own transaction in flight (request or reply lost), or goes silent "
+                       "(inactivity probe), repeatedly, while another client keeps committing; after every cut the cache must equal the monitored part of the database once "
+                       "the client reports being connected; Transact calls carry unique marker values (returned results => stored exactly once, error => at most once). "
+                       "Partial: leader-only mode is not exercised (the built-in server has no _Server database here); cut positions are sampled, not enumerated; the timing "
+                       "of the reconnect loop is the implementation's."),
+        "level_note": ("Trusted: Coq kernel + vm_compute, std++; Go harness incl. the proxy (it forwards whole JSON messages) and its polling for convergence (8 s deadline). "
+                       "Notifications arriving while a monitor is being restarted are C01's deferral theorem."),
+        "rule": ("per case 1..3 monitors (any method) on disjoint groups of 3 tables (+ an unmonitored or monitored marker table), 3 (thorough 5) cuts of 5 kinds, 1..3 foreign "
+                 "transactions (incl. deletes, GC, weak pruning) per cut, 20% of the cases with the inactivity probe and a silent peer, 25% with a cut during the first connect. "
+                 "Non-trivial: >= 2 monitors."),
+        "tags": {1: "cache after resynchronisation vs the model (monitored part of the database)"},
+        "assumptions": ["monitors of one client watch disjoint tables", "the server answers a re-established monitor with the complete contents (the built-in server never knows a last transaction id)"],
+    },
 }
